@@ -247,6 +247,9 @@ func (r *Report) finish(start time.Time) int {
 			total++
 		}
 		for _, o := range f.Obls {
+			if o.Canary {
+				continue
+			}
 			names[o.Name] = true
 			if o.Bounded {
 				bounded++
@@ -317,6 +320,13 @@ func (r *Report) finish(start time.Time) int {
 	}
 	// canaries (known findings)
 	canaryFailed := map[string][]string{}
+	for _, f := range r.Funcs {
+		for _, o := range f.Obls {
+			if o.Canary && o.Result.Status != "unsat" {
+				canaryFailed[o.KnownID] = append(canaryFailed[o.KnownID], o.Name+"="+o.Result.Status)
+			}
+		}
+	}
 	for _, f := range r.Canaries {
 		for _, o := range f.Obls {
 			if o.Result.Status != "unsat" {
